@@ -164,6 +164,9 @@ func grpcMotifs() []motif {
 		m("two-ids-crossed", hop{0, 'a', 0, 0, "matched"}, hop{0, 'a', 1, 0, "matched"}, hop{200, 'd', 1, 0, "matched"}, hop{300, 'd', 0, 0, "matched"}),
 		m("dup-accept", hop{0, 'a', 0, 0, "unmatched"}, hop{60, 'a', 0, 0, "unmatched"}),
 		m("three-ids", hop{0, 'a', 0, 0, "matched"}, hop{10, 'a', 1, 0, "matched"}, hop{20, 'a', 2, 0, "matched"}, hop{400, 'd', 2, 0, "matched"}, hop{400, 'd', 0, 0, "matched"}, hop{400, 'd', 1, 0, "matched"}),
+		// a dial that timed out, retried, and then matched by a late accept (the timed-out dial's slot is reused)
+		m("redial-after-timeout", hop{0, 'd', 0, 0, "unmatched"}, hop{5400, 'd', 0, 0, "matched"}, hop{5800, 'a', 0, 0, "matched"}),
+		m("reaccept-after-timeout", hop{0, 'a', 0, 0, "unmatched"}, hop{5400, 'a', 0, 0, "matched"}, hop{5800, 'd', 0, 0, "matched"}),
 	}
 }
 
@@ -236,7 +239,7 @@ func init() {
 		// liveness of the conn-info loop: duplicate accepts nobody dials, then a fresh pair in each direction
 		for i := 0; i < 4; i++ {
 			q := r.fork(uint64(1000 + i))
-			hs = append(hs, compose(fmt.Sprintf("gd%d", i), q, []motif{ms[10], ms[6]}, 2+q.intn(2), true))
+			hs = append(hs, compose(fmt.Sprintf("gd%d", i), q, []motif{ms[10], ms[6], ms[12], ms[13]}, 2+q.intn(2), true))
 		}
 		results := make([][]opResult, len(hs))
 		errs := make([]error, len(hs))
